@@ -511,6 +511,16 @@ pub fn configs() -> Vec<Cfg> {
 			sizes: vec![8, 960],
 			prefill: vec![],
 		},
+		// a leaf that is already nearly full of inline values: overwriting an entry that owns an
+		// overflow chain then goes through the split path
+		Cfg {
+			name: "full-leaf-overflow",
+			timestamp_cmp: false,
+			key_len: 4,
+			nkeys: 4,
+			sizes: vec![980, 5000, 6000],
+			prefill: vec![1, 2, 3],
+		},
 		Cfg {
 			name: "overflow-heavy",
 			timestamp_cmp: false,
